@@ -100,6 +100,8 @@ impl AuthorityLockGuard {
         let lock_path = authority_lock_path(&data_dir);
         let meta_path = authority_meta_path(&data_dir);
 
+        #[cfg(rip_verif)]
+        rip_kernel::verif::point("auth.acquire.create");
         let mut file = fs::OpenOptions::new()
             .create_new(true)
             .write(true)
@@ -111,6 +113,8 @@ impl AuthorityLockGuard {
                 )
             })?;
 
+        #[cfg(rip_verif)]
+        rip_kernel::verif::point("auth.acquire.write");
         let record = AuthorityLockRecord {
             pid: std::process::id(),
             started_at_ms: now_ms(),
@@ -150,7 +154,11 @@ impl AuthorityLockGuard {
 
 impl Drop for AuthorityLockGuard {
     fn drop(&mut self) {
+        #[cfg(rip_verif)]
+        rip_kernel::verif::point("auth.drop.meta");
         let _ = fs::remove_file(&self.meta_path);
+        #[cfg(rip_verif)]
+        rip_kernel::verif::point("auth.drop.lock");
         let _ = fs::remove_file(&self.lock_path);
     }
 }
@@ -185,6 +193,8 @@ pub fn try_cleanup_stale_authority_files(
     let lock_path = authority_lock_path(&data_dir);
     let meta_path = authority_meta_path(&data_dir);
 
+    #[cfg(rip_verif)]
+    rip_kernel::verif::point("auth.stale.reread");
     if !lock_path.exists() {
         return Ok(false);
     }
@@ -211,12 +221,16 @@ pub fn try_cleanup_stale_authority_files(
         expected_started_at_ms,
         now_ms()
     ));
+    #[cfg(rip_verif)]
+    rip_kernel::verif::point("auth.stale.rename");
     match fs::rename(&lock_path, &lock_tombstone) {
         Ok(()) => {}
         Err(err) if err.kind() == std::io::ErrorKind::NotFound => return Ok(false),
         Err(err) => return Err(format!("rename stale lock failed: {err}")),
     }
 
+    #[cfg(rip_verif)]
+    rip_kernel::verif::point("auth.stale.meta");
     if let Ok(Some(meta)) = read_authority_meta(&data_dir) {
         if meta.pid == expected_pid {
             let meta_tombstone = meta_path.with_file_name(format!(
@@ -238,6 +252,8 @@ pub fn try_cleanup_stale_authority_files(
 
 pub fn try_cleanup_corrupt_lock_file(data_dir: impl AsRef<Path>) -> Result<bool, String> {
     let lock_path = authority_lock_path(&data_dir);
+    #[cfg(rip_verif)]
+    rip_kernel::verif::point("auth.corrupt.check");
     if !lock_path.exists() {
         return Ok(false);
     }
@@ -252,6 +268,8 @@ pub fn try_cleanup_corrupt_lock_file(data_dir: impl AsRef<Path>) -> Result<bool,
         std::process::id(),
         now_ms()
     ));
+    #[cfg(rip_verif)]
+    rip_kernel::verif::point("auth.corrupt.rename");
     match fs::rename(&lock_path, &tombstone) {
         Ok(()) => {}
         Err(err) if err.kind() == std::io::ErrorKind::NotFound => return Ok(false),
